@@ -44,6 +44,13 @@ type byteEnv struct {
 
 func (e *byteEnv) offsetOf(index ssa.Value) (int, bool) {
 	index = stripConv(index)
+	if e.idx == nil {
+		// no running index: constant offsets from the start of the slice
+		if c, ok := constInt(index); ok {
+			return int(c), true
+		}
+		return 0, false
+	}
 	if index == e.idx {
 		return 0, true
 	}
